@@ -22,7 +22,7 @@
      ci_pc         per-thread facts [pc_ok]: commit window has its blob, the pending
                    deletions are unreferenced (and unprotected after the filter), the item
                    carried by a reader is a valid item, and for a reader parked at
-                   GOpenL k it (holding S shared) km(k) = it STILL holds -- the key map only
+                   GOpenL k it md (holding S shared) km(k) = it STILL holds -- the key map only
                    changes in WLockW steps, whose thread holds S exclusively ...
      ci_accounted  every blob in the directory is referenced, or protected, or pending in
                    the un/todo list of a thread at WApplied/WUnlink, or an initial orphan,
@@ -34,7 +34,8 @@
    parked at PDropI k h _ only when bad h) and [leaked].  The new steps: PRen with bad (H c)
    (-> PDropI, local), PDropI (step_pdrop: the ledger is decremented once), WUnlink with bad
    head (error exit, I released, local except that the pending deletions become [leaked]),
-   GOpen / GOpenL / OUnlink with bad hash and WCkW (local: a checkpoint that is not skipped
+   GOpen / GOpenL / OUnlink with bad hash, the read pcs in every mode (rmode: get, get_size,
+   get_range) with their pre-open exits, the iteration pc IRead (all local) and WCkW (local: a checkpoint that is not skipped
    only records last_persisted_version in the index -- also when the snapshot write fails --
    so the key map, the refcounts and IdxInv are untouched; step_local allows such an idx').
 
@@ -117,7 +118,7 @@ Definition holdsS (p : pc) : bool :=
   match p with WLockW _ | WCkW _ _ => true | _ => false end.
 
 Definition holdsR (p : pc) : bool :=
-  match p with GOpenL _ _ => true | _ => false end.
+  match p with GOpenL _ _ _ => true | _ => false end.
 
 (* the lock word L is held by t iff t is parked at a pc satisfying hp *)
 Definition lock_inv (L : option nat) (hp : pc -> bool) (thr : list (nat * tstate)) : Prop :=
@@ -383,8 +384,8 @@ Section ConcInv.
     | WUnlink _ todo _ =>
       todo <> [] /\ forall h, In h todo -> count_refs m h = 0 /\ sm_get lex_cmp bh h = None
     | OUnlink h _ _ _ => count_refs m h = 0 /\ sm_get lex_cmp bh h = None
-    | GLooked _ it _ | GOpen _ it | GReread _ it => valid_item it
-    | GOpenL k it => sm_get cmp m k = Some it
+    | GLooked _ it _ | GOpen _ it _ | GReread _ it _ => valid_item it
+    | GOpenL k it _ => sm_get cmp m k = Some it
     | _ => True
     end.
 
@@ -960,7 +961,7 @@ Section ConcInv.
       destruct (t_calls ts) as [|c rest] eqn:Hc; [discriminate|].
       assert (Cr : calls_ok rest).
       { intros k0 c0 I0. apply (Ct k0 c0). right; exact I0. }
-      destruct c as [k cc|k cc|k|lo hi|k|k| |hs]; try destruct hs;
+      destruct c as [k cc|k cc|k|lo hi|k|k|k a b| | |hs]; try destruct hs;
         intros E; inversion E; subst g'; clear E; local_step Inv Ht ts Hpc.
       cbn [pc_ok]. apply (Ct k cc). left; reflexivity.
     - (* PReg *)
@@ -1069,7 +1070,7 @@ Section ConcInv.
         intros E; inversion E; subst g'; clear E; local_step Inv Ht ts Hpc.
       cbn [pc_ok]. eapply km_valid_item; eassumption.
     - (* GLooked *)
-      destruct size_only; intros E; inversion E; subst g'; clear E; local_step Inv Ht ts Hpc.
+      destruct (pre_open md it); intros E; inversion E; subst g'; clear E; local_step Inv Ht ts Hpc.
     - (* GOpen *)
       destruct (bad (ihash it)) eqn:Bd;
         [intros E; inversion E; subst g'; clear E; local_step Inv Ht ts Hpc|].
@@ -1078,7 +1079,8 @@ Section ConcInv.
     - (* GReread *)
       destruct (free (g_S g)) eqn:F; [|discriminate]. apply free_none in F.
       destruct (sm_get cmp (km (g_idx g)) k) as [cur|] eqn:G.
-      + intros E; inversion E; subst g'; clear E. local_step Inv Ht ts Hpc.
+      + destruct (pre_open md cur);
+          intros E; inversion E; subst g'; clear E; local_step Inv Ht ts Hpc.
         * right; left. repeat split; reflexivity.
         * intros X. rewrite F in X. exfalso; apply X; reflexivity.
       + intros E; inversion E; subst g'; clear E; local_step Inv Ht ts Hpc.
@@ -1087,6 +1089,9 @@ Section ConcInv.
         intros E; inversion E; subst g'; clear E; local_step Inv Ht ts Hpc;
         try (right; right; repeat split; reflexivity);
         intros X; rewrite (ci_SR _ Inv X); reflexivity.
+    - (* IRead *)
+      destruct (free (g_S g)) eqn:F; [|discriminate].
+      intros E; inversion E; subst g'; clear E; local_step Inv Ht ts Hpc.
     - (* OLockI *)
       destruct todo as [|h rest].
       + intros E; inversion E; subst g'; clear E; local_step Inv Ht ts Hpc.
